@@ -411,6 +411,9 @@ func CheckUciHistory(sc *Scenario, out *UciRunOut, res *RunResult) {
 		checkOptionAudit(out.Hist, res)
 		checkNewGameEqualsFresh(out.Hist, res)
 	}
+	if c16 {
+		checkDamagedSetOption(sc, out, stepOfIn, res)
+	}
 
 	// waits
 	for _, w := range out.Waits {
